@@ -8,6 +8,7 @@ func init() {
 	vRegister("HarnessC06_identity", HarnessC06_identity)
 	vRegister("HarnessC06_escape", HarnessC06_escape)
 	vRegister("HarnessC06_keys", HarnessC06_keys)
+	vRegister("HarnessC06_unicode", HarnessC06_unicode)
 }
 
 // c06Plain: s carries no directive and no doubled dollar (ASCII strings):
@@ -230,4 +231,32 @@ func HarnessC06_keys() {
 	vObserve("out", outs[0])
 	vAssert("C06.keys.same", vEq(outs[0], tree))
 	vCover("keys.checked")
+}
+
+// HarnessC06_unicode: "$" followed by a multi-byte character that is not a
+// lower-case letter (2-, 3- and 4-byte UTF-8: É, €, 日, 😀, →) and a symbolic
+// tail is plain data: it passes through unchanged as value, key and list
+// entry, alone and $-doubled.
+func HarnessC06_unicode() {
+	chars := []string{"É", "€", "日", "😀", "→", "×"}
+	c := chars[ndChoice(len(chars))]
+	s := "$" + c + ndStr(2, "print")
+	vAssume(!vContains(s, "$$"))
+	var doc map[string]any
+	switch ndChoice(3) {
+	case 0:
+		doc = map[string]any{"v": s}
+	case 1:
+		doc = map[string]any{s: 1}
+	default:
+		doc = map[string]any{"l": []any{s, 1}}
+	}
+	vObserve("doc", doc)
+	outs, err := c06Eval(vCopy(doc))
+	vAssert("C06.unicode.accepted", err == nil)
+	vAssert("C06.unicode.same", vEq(outs[0], doc))
+	outs2, err2 := c06Eval(c06EscTree(doc))
+	vAssert("C06.unicode.escaped.accepted", err2 == nil)
+	vAssert("C06.unicode.escaped.same", vEq(outs2[0], doc))
+	vCover("unicode.checked")
 }
